@@ -18,7 +18,8 @@ PlainNamesL == { <<"a">>, <<"b">>, <<"f", "DOT", "x">>, <<"L">> }
 DeepNames == { <<"a">>, <<"DOT", "DOT", "SP">>, <<"DOT", "DOT">> }
 HostileNames == { <<"a">>, <<"DOT">>, <<"DOT", "DOT">>, <<"a", "SL", "b">>, <<"SL", "a">>, <<"DOT", "DOT", "SL", "a">> }
 \* dry-run: names that become files under some extension list, and hostile names
-DryNames == { <<"a">>, <<"f", "DOT", "x">>, <<"DOT", "DOT">>, <<"a", "SL", "b">>, <<"DOT">> }
+\* ("..a": a valid name that merely starts with two dots)
+DryNames == { <<"a">>, <<"f", "DOT", "x">>, <<"DOT", "DOT">>, <<"a", "SL", "b">>, <<"DOT">>, <<"DOT", "DOT", "a">> }
 Exts4 == { {}, {<<"DOT", "x">>}, {<<"f", "DOT", "x">>}, {<<"x">>, <<"DOT", "x">>}, {<<"b">>}, {<<"x">>}, {<<>>} }
 Exts2 == { {}, {<<"a">>} }
 ExtsX == { {<<"DOT", "x">>} }
